@@ -214,10 +214,10 @@ CancelAct(w, id, sl) ==
 \* accounts on w1
 CreateAccountAct ==
   /\ "a1" \notin AllAccts(st, "w1")
-  /\ Upd(LastOf(CreateAccount(st, "w1", [name |-> "a1"]).steps), hv, net, [ev |-> "create_account", w |-> "w1", label |-> "acct1"])
+  /\ Upd(LastOf(CreateAccount(st, "w1", [name |-> "a1", label |-> "acct1"]).steps), hv, net, [ev |-> "create_account", w |-> "w1", label |-> "acct1"])
 SetActiveAct(a) ==
   /\ a \in AllAccts(st, "w1") /\ a # st.w["w1"].active
-  /\ Upd(LastOf(SetActive(st, "w1", [name |-> a]).steps), hv, net,
+  /\ Upd(LastOf(SetActive(st, "w1", [label |-> IF a = "a0" THEN "default" ELSE "acct1"]).steps), hv, net,
          [ev |-> "set_active", w |-> "w1", label |-> IF a = "a0" THEN "default" ELSE "acct1"])
 
 \* -- adversarial use of the foreign API of w1 (C07); the number of adversarial
@@ -258,7 +258,7 @@ Next ==
   \/ UseInvoice /\ \E sl \in Slates : (\E amt \in Amounts : IssueInvoiceAct(sl, amt)) \/ ProcessInvoiceAct(sl)
                                         \/ \E m \in net : FinalizeInvoiceAct(sl, m)
   \/ MineAct("") \/ TickAct
-  \/ UseMineTo /\ \E w \in WS : MineAct(w)
+  \/ UseMineTo /\ MineAct("w1")
   \/ \E w \in WS : RefreshAct(w)
   \/ \E w \in WS : \E t \in DOMAIN st.w[w].txs :
         st.w[w].txs[t].acct = st.w[w].active /\ CancelAct(w, st.w[w].txs[t].id, "")
